@@ -57,6 +57,7 @@ class Evidence(object):
         self.samples = []
         self.functions = set()
         self.interpreted = set()
+        self.branches = {}
         self.rule_instances = {}
         self.floors = {}
         self.assumptions = []
@@ -140,7 +141,7 @@ def finish(prop, tier, seed, ev, findings, t0, errors):
             print("ANALYSIS-ERROR property=%s %s" % (prop, e))
         code = 2
     if new:
-        rp_dir = os.path.join(VERIF_ROOT, "evidence", "replay") if not os.environ.get("GINVERIF_NO_EVIDENCE") else os.path.join("/tmp", "ginverif_replay_%d" % os.getpid())
+        rp_dir = os.path.join(VERIF_ROOT, "evidence", "replay") if not os.environ.get("GINVERIF_NO_EVIDENCE") else (os.environ.get("GINVERIF_REPLAY_DIR") or os.path.join("/tmp", "ginverif_replay_%d" % os.getpid()))
         os.makedirs(rp_dir, exist_ok=True)
         rp = os.path.join(rp_dir, "%s.json" % prop)
         with open(rp, "w") as fh:
